@@ -1,6 +1,8 @@
 CONSTANTS
-  Classes = {"E", "W", "H", "C", "F1", "F1ba", "F0s", "X"}
+  Classes = {"E", "W", "H", "C", "F1ba", "X"}
   MaxLines = 6
+  NarrowClasses = {}
+  NarrowMaxLines = 0
   Emit = "none"
   MergeUnterminatedWs = FALSE
   DropFloatingComment = FALSE
